@@ -76,7 +76,7 @@ func (f *Frame) freshResults(cc *ssa.CallCommon, st *State, prefix string) []Ter
 	var out []Term
 	for i := 0; i < res.Len(); i++ {
 		ts := f.ctx.freshLeaves(fmt.Sprintf("%s_r%d", prefix, i), res.At(i).Type())
-		st.assume(f.ctx, typeInv(res.At(i).Type(), ts))
+		f.ctx.assumeFact(st, typeInv(res.At(i).Type(), ts))
 		st.assume(f.ctx, refsBelow(res.At(i).Type(), ts, st.Alloc))
 		out = append(out, ts...)
 	}
@@ -712,6 +712,44 @@ func (f *Frame) havocFor(callee *ssa.Function, blk *Block, cc *ssa.CallCommon, s
 		}
 	}
 	f.havocKeys(ms, st)
+	f.havocInteriorArgs(ms, cc, st)
+}
+
+// havocInteriorArgs: a pointer argument that addresses a field or an element
+// (an interior pointer) names memory that lives under the key of the
+// containing object, not under the key of the pointee type the callee's
+// may-write set speaks about; if the callee may write through pointers of
+// that type, the addressed location gets an arbitrary value (the callee's
+// postconditions, which read *p through the same shape, constrain it).
+func (f *Frame) havocInteriorArgs(ms *modSet, cc *ssa.CallCommon, st *State) {
+	c := f.ctx
+	vals := append([]ssa.Value{}, cc.Args...)
+	if cc.IsInvoke() {
+		vals = append([]ssa.Value{cc.Value}, vals...)
+	}
+	for _, a := range vals {
+		if _, ok := a.Type().Underlying().(*types.Pointer); !ok {
+			continue
+		}
+		ts := f.get(a)
+		sh, ok := c.shapes[ts[0].S]
+		if !ok || sh.Kind == pLocal {
+			continue
+		}
+		may := ms.all
+		for k := range layout(sh.Typ) {
+			if ms.keys[objKey(sh.Typ, k)] {
+				may = true
+			}
+		}
+		if !may {
+			continue
+		}
+		nv := c.freshLeaves("ipw", sh.Typ)
+		c.store(st, sh, nv)
+		st.assume(c, typeInv(sh.Typ, nv))
+		st.assume(c, refsBelow(sh.Typ, nv, st.Alloc))
+	}
 }
 
 func (f *Frame) havocKeys(ms *modSet, st *State) {
@@ -966,15 +1004,64 @@ func (f *Frame) invoke(in ssa.Instruction, cc *ssa.CallCommon, st *State) []Term
 		return f.freshResults(cc, st, "Error")
 	}
 	ms := &modSet{keys: map[string]bool{}}
-	for _, impl := range c.eng.implementations(it, cc.Method) {
+	impls := c.eng.implementations(it, cc.Method)
+	for _, impl := range impls {
 		ms.add(c.eng.modset(impl))
 	}
+	// contracts of the in-repo implementations: their preconditions are
+	// obligations and their postconditions hold, each under the condition
+	// that the dynamic type is that implementation's receiver type
+	type implC struct {
+		impl *ssa.Function
+		blk  *Block
+		cond Term
+		args [][]Term
+	}
+	var ics []implC
+	for _, impl := range impls {
+		blk := c.eng.ld.ByFn[impl]
+		if blk == nil || blk.FromRule != nil || blk.IsRule || (len(blk.Pre) == 0 && len(blk.Post) == 0) {
+			continue
+		}
+		rt := impl.Signature.Recv().Type()
+		cond := Eq(recv[0], c.typeID(rt))
+		a := append([][]Term{c.unbox(rt, recv[1])}, args[1:]...)
+		ics = append(ics, implC{impl, blk, cond, a})
+		c.used[blk] = true
+		for _, cl := range blk.Pre {
+			t := c.evalSpecFn(cl.Fn, a, st, snapOf(st), f)[0]
+			c.addObl(&Obligation{Name: c.oblName(f.label, "pre@"+blk.QualName()), Kind: "pre@call", Fn: f.label, Pos: f.posOf(in.Pos()), Text: "requires " + cl.Text + "  [at interface call, dynamic type " + rt.String() + "]", Reach: st.Reach, Goal: Implies(cond, t), Clause: cl})
+		}
+	}
+	old := snapOf(st)
 	fake := &ssa.Call{Call: *cc}
 	c.eng.directWrites(f.fn, fake, ms)
 	f.setPassedRefs(cc)
 	f.havocKeys(ms, st)
 	f.havocEscapedCells(cc, st)
 	res := f.freshResults(cc, st, cc.Method.Name())
+	for _, ic := range ics {
+		var resVals [][]Term
+		rt := cc.Signature().Results()
+		off := 0
+		for i := 0; i < rt.Len(); i++ {
+			n := len(layout(rt.At(i).Type()))
+			resVals = append(resVals, res[off:off+n])
+			off += n
+		}
+		all := append(append([][]Term{}, ic.args...), resVals...)
+		for _, cl := range ic.blk.Post {
+			pa := all
+			if cl.RecvOnly {
+				pa = all[:1]
+			}
+			t := c.evalSpecFn(cl.Fn, pa, st, old, f)[0]
+			st.assume(c, Implies(ic.cond, t))
+		}
+		if ic.blk.Flags["trusted"] || ic.blk.Flags["assume-contract"] {
+			c.note("assumed", "assumed contract of "+ic.blk.QualName())
+		}
+	}
 	f.recordCall(st, cc, res, short, qual)
 	return res
 }
